@@ -71,7 +71,13 @@ namespace igris
             return bWasSignalled;
         }
 
-        inline bool isset() const { return m_bFlag; }
+        inline bool isset() const
+        {
+            // the flag is written under the mutex by signal()/reset(): read
+            // it under the mutex too (a plain read is a data race)
+            std::lock_guard<std::mutex> _lock(m_mutex);
+            return m_bFlag;
+        }
     };
 }
 
